@@ -86,10 +86,12 @@ def extra_cases(rng, tier):
     add("tiny_ram", max_ram_MB=1, rtol=1e-13, atol=1e-16)
     add("tight_tolerance_few_steps", max_num_steps=50, rtol=1e-12)
     add("radius_not_monotone", poke=[["radius", 7, 1.0]])
+    # a grid that starts AT the centre (a normal call takes well under a second: 25 s is the hang oracle for this case)
+    add("zero_first_radius", poke=[["radius", 0, 0.0]], max_num_steps=10000, hang_timeout=25)
     add("zero_gravity", poke=[["gravity", 0, 0.0]])
     add("all_three_solutions", solve_for=["tidal", "loading", "free"])
     # valid values in unusual containers: the call must raise cleanly or work, never crash, and never leave the arrays changed
-    for form in ("noncontiguous", "float32_radius", "fortran_2d_slice", "readonly"):
+    for form in ("noncontiguous", "float32_radius", "fortran_2d_slice", "readonly", "mmap_readonly"):
         add("array_form_" + form, array_form=form)
     add("result_lifetime", check_lifetime=True)
     # liquid surface layers (static and dynamic), liquid sandwiches, five-layer stacks
@@ -138,7 +140,7 @@ def run_cases(cases, timeout=90):
                 running.remove(item)
                 line = [x for x in out.splitlines() if x.startswith("RESULT ")]
                 results[i] = {"exit": pr.returncode, "res": json.loads(line[0][7:]) if line else None, "stderr": err[-600:]}
-            elif time.time() - t0 > timeout:
+            elif time.time() - t0 > cases[i].get("hang_timeout", timeout):
                 pr.kill()
                 pr.communicate()
                 running.remove(item)
@@ -211,7 +213,7 @@ def run(tier, seed):
         top = c["layers"][-1]
         top_kind = "%s_%s" % (top["type"], "static" if top["static"] else "dynamic")
         if r["exit"] != 0 or r["res"] is None:
-            ck.violation({"clause": "total", "top_layer": top_kind, "status": str(r["exit"])}, "case %s (nondim=%s) ended the interpreter: exit status %s %s" % (name, c["nondim"], r["exit"], r["stderr"][-300:]), det)
+            ck.violation({"clause": "total", "top_layer": top_kind, "status": str(r["exit"]), "case": name if name == "zero_first_radius" else "other"}, "case %s (nondim=%s) ended the interpreter: exit status %s %s" % (name, c["nondim"], r["exit"], r["stderr"][-300:]), det)
             continue
         o = r["res"]
         if not o["inputs_restored"]:
